@@ -70,9 +70,11 @@ class Module:
         self._scan_standalone()
 
     def link_parents(self):
+        shared = (ast.expr_context, ast.operator, ast.boolop, ast.unaryop, ast.cmpop)    # parser singletons, shared by all trees
         for parent in ast.walk(self.tree):
             for child in ast.iter_child_nodes(parent):
-                child._parent = parent  # type: ignore[attr-defined]
+                if not isinstance(child, shared):
+                    child._parent = parent  # type: ignore[attr-defined]
         self.tree._parent = None  # type: ignore[attr-defined]
 
     def _scan_standalone(self):
